@@ -54,6 +54,9 @@ pub enum Mutation {
     SetId { rec: u16, id: u16 },
     /// insert a whole record at a record boundary; `own_id` uses the request's id
     InsertRec { gap: u16, own_id: bool, raw: RawRec },
+    /// overwrite the first bytes of the picked record's payload (e.g. a name-value header
+    /// announcing up to 2^31-1 bytes for both lengths)
+    PayloadPrefix { rec: u16, bytes: Hex },
 }
 
 #[derive(Clone, Debug, Serialize, Deserialize)]
@@ -144,6 +147,19 @@ pub fn assemble(c: &Case) -> (Vec<u8>, usize) {
                     if o + 4 <= wire_bytes.len() {
                         wire_bytes[o + 2] = (*id >> 8) as u8;
                         wire_bytes[o + 3] = *id as u8;
+                    }
+                }
+            },
+            Mutation::PayloadPrefix { rec, bytes } => {
+                if nrec > 0 {
+                    let o = offsets[idx(*rec, nrec)];
+                    if o + 8 <= wire_bytes.len() {
+                        let len = ((wire_bytes[o + 4] as usize) << 8) | wire_bytes[o + 5] as usize;
+                        for (k, b) in bytes.0.iter().enumerate().take(len) {
+                            if o + 8 + k < wire_bytes.len() {
+                                wire_bytes[o + 8 + k] = *b;
+                            }
+                        }
                     }
                 }
             },
@@ -547,6 +563,11 @@ fn mutation() -> BoxedStrategy<Mutation> {
         1 => (any::<u16>(), proptest::collection::vec(any::<u8>(), 1..20)).prop_map(|(at, bytes)| Mutation::Insert { at, bytes: Hex(bytes) }),
         2 => any::<u16>().prop_map(|at| Mutation::Truncate { at }),
         1 => (any::<u16>(), prop_oneof![Just(0u16), Just(1), any::<u16>()]).prop_map(|(rec, id)| Mutation::SetId { rec, id }),
+        3 => (any::<u16>(), prop_oneof![
+                Just(vec![0xffu8; 8]), Just(vec![0xff, 0xff, 0xff, 0xfc, 0xff, 0xff, 0xff, 0xfc]), Just(vec![0xff, 0xff, 0xff, 0xff, 0xff, 0xff, 0xff, 0xf9]),
+                Just(vec![0xff, 0xff, 0xff, 0xff, 0x00]), Just(vec![0x00, 0xff, 0xff, 0xff, 0xff]), Just(vec![0x80, 0, 0, 0, 0x80, 0, 0, 0]),
+                Just(vec![0xff, 0xff, 0xff, 0xff, 0x80, 0x00, 0x00, 0x08]), (any::<u32>(), any::<u32>()).prop_map(|(a, b)| { let mut v = (a | 0x8000_0000).to_be_bytes().to_vec(); v.extend((b | 0x8000_0000).to_be_bytes()); v }),
+            ]).prop_map(|(rec, bytes)| Mutation::PayloadPrefix { rec, bytes: Hex(bytes) }),
         3 => (any::<u16>(), prop::bool::weighted(0.7), raw_rec(), prop_oneof![3 => Just(2u8), 2 => Just(1u8), 1 => Just(9u8), 1 => Just(5u8), 1 => any::<u8>()])
             .prop_map(|(gap, own_id, mut raw, ty)| { raw.ty = ty; raw.version = 1; Mutation::InsertRec { gap, own_id, raw } }),
     ]
